@@ -30,6 +30,7 @@ type PropMeta struct {
 	Outside     []string          `json:"outside"`
 	ValidateN   int               `json:"validate_n"`
 	AllocBound  int               `json:"alloc_bound"`
+	AllocEventIsPanic bool        `json:"alloc_event_is_panic"`
 	SolverArgs  map[string][]string `json:"solver_args"`
 	NoValidate  []string          `json:"no_validate"` // harnesses excluded from translator validation (with reason in props)
 }
@@ -155,6 +156,7 @@ func main() {
 		Tier: *tier, InitPkgs: hp, KnownIDs: knownIDs, SolverArgs: meta.SolverArgs, MaxDecisions: meta.MaxDecisions, Verbose: *verbose,
 		Configure: func(in *gosym.Interp) {
 			in.AllocBound = meta.AllocBound
+			in.AllocEventIsPanic = meta.AllocEventIsPanic
 		}}
 	if cfg.MaxPathsPerHarness == 0 {
 		cfg.MaxPathsPerHarness = 50000
